@@ -41,7 +41,7 @@ CHECKS = {
  "C12": ("proptest + catch_unwind around every call: random/mutated decoder inputs, adversarial field values that are then used, cross-session deliveries, per-step over-limit refusal grid, awkward KSF parameters; libFuzzer targets decoders and server_start (thorough) + corpus replay",
          "No call may panic; in-range lengths complete, over-limit password/identity/context never complete a registration or login.",
          "Sampling; non-termination is reported as inconclusive by a watchdog.", "5 C12"),
- "C13": ("proptest differential: run with save/reload plans (native, bincode, JSON at 5 persistence points) vs uninterrupted run on equal tapes",
+ "C13": ("proptest differential: run with save/reload plans (native, bincode, JSON at 5 persistence points) vs uninterrupted run on equal tapes; libFuzzer targets decoders (accepted values survive every codec) and history (states pushed through a codec between the steps of adversarial histories) in the thorough tier + corpus replay",
          "Reload plans (all 1024 in the thorough tier for one input per suite, plus sampled) must give byte-identical messages, states, keys and results.",
          "Plans exhaustive in thorough for one input per suite; inputs sampled.", "5 C13"),
  "C14": ("proptest metamorphic relations between runs + reference OPRF evaluation",
@@ -99,7 +99,7 @@ def main():
         "engines": [
             {"name": "vharness", "path": "/verif/harness", "serves_properties": ids,
              "kind_free_text": "Rust crate (stable toolchain): proptest-driven generated search with explicit oracles (RFC reference model, acceptance models, metamorphic/differential relations), per-case bounded enumeration, fault injection (RNG, KSF, external key), shrinking to replay files"},
-            {"name": "vfuzz", "path": "/verif/fuzz", "serves_properties": ["C03", "C04", "C07", "C08", "C10", "C11", "C12"],
+            {"name": "vfuzz", "path": "/verif/fuzz", "serves_properties": ["C03", "C04", "C07", "C08", "C10", "C11", "C12", "C13"],
              "kind_free_text": "cargo-fuzz / libFuzzer targets (nightly) decoders, login_response, server_finish, server_start, history (stateful); oracles live in the harness library, so the committed corpus is replayed by the stable binary in the quick tier and crashes are confirmed on the production profile"},
         ],
         "checks": checks,
